@@ -1,4 +1,5 @@
 import Octo.Model.JsonPipe
+import Octo.Model.JoinProto
 /-!
 C29 driver.
 
@@ -64,7 +65,7 @@ def runCanon : Nat → State → State
     | some (_, s') => runCanon fuel (norm s')
     | none => s
 
-def model (toks : List String) : String :=
+def modelJson (toks : List String) : String :=
   match parseOp toks with
   | some s =>
     let t := runCanon (fuelOf s) s
@@ -180,8 +181,108 @@ def splitBar : List String → List String × List String
   | "|" :: r => ([], r)
   | x :: r => let (a, b) := splitBar r; (x :: a, b)
 
+/-! ### join ops
+
+op   `join <nw> <sj|oj> <nL> <nR> <m> <stop k|-> <errL e|-> <errR e|-> d<seed>`
+impl `<ret> sent=<l>,<r> recv=<l>,<r> ended=<l>,<r> aborted=<l>,<r>`
+-/
+
+structure JoinOp where
+  outer : Bool
+  nL : Nat
+  nR : Nat
+  m : Nat
+  stop : Option Nat
+  errL : Option Nat
+  errR : Option Nat
+
+def parseJoinOp (toks : List String) : Option JoinOp :=
+  match toks with
+  | "join" :: _ :: kind :: nL :: nR :: m :: stop :: eL :: eR :: _ => do
+    pure ⟨kind = "oj", ← nL.toNat?, ← nR.toNat?, ← m.toNat?, ← parseOptNat stop, ← parseOptNat eL, ← parseOptNat eR⟩
+  | _ => none
+
+/-- outcome of the node's Run: a failing source wins, else the k-th output (there are `min m nL nR` matching pairs) -/
+def joinRet (o : JoinOp) : String :=
+  if o.errL.isSome ∨ o.errR.isSome then "err"
+  else match o.stop with
+    | some k => if 0 < k ∧ k ≤ min o.m (min o.nL o.nR) then "stop" else "ok"
+    | none => "ok"
+
+/-- messages a source sends: its records up to the failure, plus the error message -/
+def joinMsgs (n : Nat) (err : Option Nat) : Nat :=
+  match err with
+  | some e => min e n + 1
+  | none => n
+
+open Octo.JoinProto in
+/-- canonical schedule of the protocol model: the consumer returns at its first receive when the run ends early -/
+def joinCanon (early : Bool) : Nat → JoinProto.State → JoinProto.State
+  | 0, s => s
+  | fuel + 1, s =>
+    let cands : List JoinProto.Action :=
+      [.cRecv .L early, .cRecv .R early, .cSeeClosed .L, .cSeeClosed .R, .pSend .L, .pSend .R,
+       .pAbort .L, .pAbort .R, .pClose .L, .pClose .R]
+    match cands.findSome? (fun a => JoinProto.step s a) with
+    | some s' => joinCanon early fuel s'
+    | none => s
+
+def b01 (b : Bool) : String := if b then "1" else "0"
+
+def modelJoin (toks : List String) : String :=
+  match parseJoinOp toks with
+  | none => "bad-op"
+  | some o =>
+    let s0 := JoinProto.State.init true (joinMsgs o.nL o.errL) (joinMsgs o.nR o.errR)
+    let t := joinCanon (joinRet o != "ok") (JoinProto.measure s0 + 1) s0
+    s!"{joinRet o} ended={b01 t.l.closed},{b01 t.r.closed}"
+
+def parsePair (t : String) (key : String) : Option (Nat × Nat) :=
+  match t.splitOn "=" with
+  | [k, v] =>
+    if k = key then
+      match v.splitOn "," with
+      | [a, b] => do pure (← a.toNat?, ← b.toNat?)
+      | _ => none
+    else none
+  | _ => none
+
+def judgeJoin (toks : List String) (out : List String) : String :=
+  match parseJoinOp toks, out with
+  | none, _ => "bad unparsable-op"
+  | _, "timeout" :: _ => "bad non-termination (the join's Run did not return)"
+  | some o, [ret, sent, recv, ended, aborted] =>
+    match parsePair sent "sent", parsePair recv "recv", parsePair ended "ended", parsePair aborted "aborted" with
+    | some (sl, sr), some (rl, rr), some (el, er), some (al, ar) =>
+      if el ≠ 1 ∨ er ≠ 1 then "bad a-producer-goroutine-of-the-join-is-blocked-for-ever (leak)"
+      -- (a LEFT OUTER join also emits unmatched left records, so it may reach the k-th output where the inner join does not)
+      else if ret ≠ joinRet o ∧ ¬ (o.outer ∧ o.stop.isSome ∧ ret = "stop") then "bad unexpected-outcome model=" ++ joinRet o
+      else if rl > sl + 1 ∨ rr > sr + 1 then "bad more-received-than-sent"
+      else if sl > rl + JoinProto.cap ∨ sr > rr + JoinProto.cap then "bad more-in-flight-than-the-channel-holds"
+      else if ret = "ok" ∧ (rl ≠ o.nL ∨ rr ≠ o.nR ∨ al ≠ 0 ∨ ar ≠ 0) then "bad complete-run-lost-messages"
+      else "ok"
+    | _, _, _, _ => "bad unparsable-impl-output"
+  | _, _ => "bad unparsable-impl-output"
+
+/-! ### race ops (violation search only): `race <GOMAXPROCS> <query> <rows> d<seed> x<expected exit code>` -/
+
+def raceExpected (toks : List String) : String :=
+  match toks with
+  | "race" :: _ :: _ :: _ :: _ :: x :: _ => "norace exit=" ++ (x.drop 1).toString
+  | _ => "bad-op"
+
+def judgeRace (toks : List String) (out : List String) : String :=
+  match out with
+  | "race" :: rest => "bad data-race-reported-by-the-race-detector " ++ " ".intercalate (rest.take 6)
+  | "timeout" :: _ => "bad non-termination (the query did not end)"
+  | "crash" :: _ => "bad crash"
+  | "race-build-failed" :: _ => "bad the-race-detector-binary-could-not-be-built"
+  | _ => if " ".intercalate out = raceExpected toks then "ok" else "bad unexpected-exit-code expected " ++ raceExpected toks
+
 def judge (toks : List String) (out : List String) : String :=
   match toks with
+  | "race" :: _ => judgeRace toks out
+  | "join" :: _ => judgeJoin toks out
   | "json" :: _ =>
     match parseOp toks with
     | none => "bad unparsable-op"
@@ -202,5 +303,11 @@ def judge (toks : List String) (out : List String) : String :=
           else if summary s ≠ " ".intercalate summ then "bad summary-differs model=" ++ summary s
           else "ok"
   | _ => "ok"
+
+def model (toks : List String) : String :=
+  match toks with
+  | "join" :: _ => modelJoin toks
+  | "race" :: _ => raceExpected toks
+  | _ => modelJson toks
 
 end Octo.Drv.C29
